@@ -5,6 +5,7 @@ import (
 	"math/rand"
 	"testing"
 
+	commonpb "go.temporal.io/api/common/v1"
 	historypb "go.temporal.io/api/history/v1"
 	"google.golang.org/protobuf/proto"
 	"google.golang.org/protobuf/reflect/protoreflect"
@@ -92,6 +93,37 @@ func TestNamespace(t *testing.T) {
 		// (B) every path to a history-event blob x every event-level path to a name, plus the
 		// event between two plain events (the shortcut decides on whole lists)
 		blobPaths := gen.EnumeratePaths(r.md, gen.IsEventBlobSite, 2, 14, 100000)
+		// (B') every history event TYPE with a link that names a namespace, serialized: alone, and next to an event
+		// of the same type without a link (the shortcut that skips "uninteresting" event types decides on whole
+		// batches; a batch made only of such types must still have its links looked at)
+		for bi, bp := range blobPaths {
+			for ai, af := range gen.AttrFields {
+				if !rec.Thorough() && (bi+ai)%3 != 0 {
+					continue
+				}
+				mk := func(id int64, link bool) *historypb.HistoryEvent {
+					e := &historypb.HistoryEvent{EventId: id}
+					e.ProtoReflect().Set(af, protoreflect.ValueOfMessage(e.ProtoReflect().NewField(af).Message()))
+					fixType(e)
+					if link {
+						e.Links = []*commonpb.Link{{Variant: &commonpb.Link_WorkflowEvent_{WorkflowEvent: &commonpb.Link_WorkflowEvent{Namespace: src, WorkflowId: "wf", RunId: "run"}}}}
+					}
+					return e
+				}
+				for variant, evs := range [][]*historypb.HistoryEvent{{mk(3, true)}, {mk(3, false), mk(4, true)}} {
+					msg := gen.New(r.md)
+					parent, f := gen.Descend(msg, bp)
+					blob := gen.EncodeEvents(evs)
+					if f.IsList() {
+						parent.Mutable(f).List().Append(protoreflect.ValueOfMessage(blob.ProtoReflect()))
+					} else {
+						parent.Set(f, protoreflect.ValueOfMessage(blob.ProtoReflect()))
+					}
+					counts["blob_link_per_event_type_cases"]++
+					viol = append(viol, checkNS(tr, r, msg, fmt.Sprintf("blob %s, batch of %d %s events, one with a workflow-event link", bp.String(), variant+1, af.Name()))...)
+				}
+			}
+		}
 		for _, bp := range blobPaths {
 			for ei, ep := range evPaths {
 				ev := &historypb.HistoryEvent{EventId: 7}
